@@ -17,12 +17,12 @@ CHECK = {
     },
     "level": "proof",
     "design_ref": "DESIGN.md §4 C09",
-    "technique": "Lean 4: statement-level model of build.unify with theorems for all inputs (index = common set, per-arch list exact and sorted, dead `missing` loop, order-independence partial + negation witness), byte-range arithmetic proved over expressions regenerated from LockCmd, relock lemmas on the shared resolver model (constrain isolates every locked name, existing-first preference, flat fixpoint) + full statement refuted by the F09a witness; correspondence of unify / LockImageConfiguration / the relock round trip / `apko lock` + `apko build --lockfile` end to end against Impl, with the round-trip oracle evaluated in Lean on every Go output",
+    "technique": "Lean 4: statement-level model of build.unify with theorems for all inputs (index = common set, per-arch list exact and sorted, dead `missing` loop, order-independence partial + negation witness), byte-range arithmetic proved over expressions regenerated from LockCmd, relock invariant on the shared resolver model (constrain isolates every locked name; in universes without provides/install_if every pick of a successful re-resolution is a member, so the result is exactly the locked set) + full statement refuted by the F09a witness; correspondence of unify / LockImageConfiguration / the relock round trip / `apko lock` + `apko build --lockfile` end to end against Impl, with the round-trip oracle evaluated in Lean on every Go output",
     "trusted_base": LEAN_TB + ["Model/Resolver.lean mirrors repo.go by hand (tie = C02/C14 suites + the lock suite's relock steps + body hashes)",
                                "harness/synthrepo.go + lock_e2e.go build the signed file repositories and recompute ranges/checksums independently of apko's writers"],
     "rule": "cases = per-architecture universe families (1-4 architectures derived from one base: versions missing / different / newer on one architecture, provides dropped; 45% `clean` = no install_if, no provides of real names, parsable versions, no duplicates) with worlds of 1-5 entries (operators, pins, virtuals requested by provided name); per case: unify through the hook in two architecture orders + every order (order independence), per architecture the relock round trip with the real resolver; 20% raw adversarial `resolved` values straight into unify; 4% real LockImageConfiguration on materialised signed repositories; 4% `apko lock` + `apko build` + `apko build --lockfile` (signed and unsigned packages, ranges and checksums recomputed from the files, images compared bytewise and modulo install order). non-trivial = a lock was produced / the round trip ran; distinct = distinct request lines",
     "assumptions": ["`resolved` maps are non-nil and packages = keys(versions), as LockImageConfiguration builds them (WF in the theorems)",
                     "architecture names are distinct and none is called `index`",
                     "hashes are outside the model: checksums are recomputed by the harness from the package files"],
-    "text": "Proved for all inputs: unify_index_common, unify_arch_exact, unify_missing_dead, hideProvided_order_free, ranges_partition/ranges_cover (over regenerated expressions), installable_exact, unify_perm_invariant_partial/_common; constrain_locks, compare_prefers_existing, minFunc_prefers, relock_flat (members without dependencies) on the resolver model. The full fixpoint statement and the full order-independence are FALSE on the pinned tree (F09a_witness, F09g_witness proved and replayed); the general relock_fixpoint_partial (with dependency closure) is stated with its hypotheses = the negated finding classes F09a-F09h but not proved: there the check relies on the round-trip oracle evaluated in Lean on every Go output and on Go = Impl. Ten finding classes (F09a-F09j) are decided by the Lean driver; every failing round trip outside them, or any Go/Impl difference, is a violation.",
+    "text": "Proved for all inputs: unify_index_common, unify_arch_exact, unify_missing_dead, hideProvided_order_free, ranges_partition/ranges_cover (over regenerated expressions), installable_exact, unify_perm_invariant_partial/_common; constrain_locks, constrain_sub, compare_prefers_existing, minFunc_prefers, depLoop_inv/getDeps_inv/go_inv and relock_fixpoint_partial on the resolver model (unbounded universes without provides and install_if, any dependency shape, pinned or unpinned indexes: a successful re-resolution of a lock of a closed set with unique (name, version) returns exactly that set). The full fixpoint statement and the full order-independence are FALSE on the pinned tree (F09a_witness, F09g_witness proved and replayed). Not proved: that the re-resolution succeeds, and the fixpoint in the presence of provides; there the check relies on the round-trip oracle evaluated in Lean on every Go output and on Go = Impl. Ten finding classes (F09a-F09j) are decided by the Lean driver; every failing round trip outside them, or any Go/Impl difference, is a violation.",
 }
